@@ -22,6 +22,8 @@ time passing between them, configuration changes at any position):
 -/
 import SigModel.Model.Alert
 import SigModel.Lemmas.C20
+import SigModel.Model.KV
+import SigModel.Lemmas.C20Kb
 
 namespace SigModel.Props.C20
 open SigModel.Alert
@@ -199,3 +201,173 @@ example : -- non-vacuous: N = 2, second matched evaluation fires and is delivere
   decide
 
 end SigModel.Props.C20
+
+
+/-!
+# C20, keyed-store half (model: SigModel/Model/KV.lean; suite "kv", harness/cmd/corr/c20_kv.go)
+
+Specification: `Spec T K V := T → K → Option V`, (tenant, key) ↦ last written value.  Per store an
+implementation-shaped model (`step`, `abs`) mirroring the Go code as it is.  For each modelled store:
+  (1) `kv_refines_spec_<store>`   for EVERY operation sequence every answer is the documented one for
+      the abstract state and `abs` commutes with every step;
+  (2) `reload_persist_id_<store>` a restart (new process, state re-read from the files) is the identity
+      on what reads return, in every reachable state;
+  (3) `tenant_frame_<store>`      an operation of tenant t leaves every other tenant's state unchanged.
+Where the code violates a statement: `…_counterexample` (concrete witness, replayed on the real code by
+corpus/kv.ops), `…_partial` under an explicit decidable guard, and an `example` that the guard is
+satisfiable.
+-/
+namespace SigModel.Props.C20.KV
+open SigModel.KV
+
+/-! ## saved queries (pkg/usersavedqueries) — all three statements hold at full strength -/
+section Usq
+open SigModel.KV.Usq
+variable {V : Type}
+
+/-- C20.K1 (saved queries): for EVERY sequence of save / delete / search / list / restart operations on
+any tenants, and for EVERY outcome `b` of the mtime-vs-last-read clock race at each operation, every
+answer is the documented one for the abstract keyed store (save = upsert, rejected for the empty name;
+delete = not-found exactly when absent; search = the entries whose name contains the text; list = all
+entries of the tenant), and `abs` commutes with every step. -/
+theorem kv_refines_spec_usq (ops : List (Op V × Bool)) : Refines (Spec.empty) (init : St V) ops := by
+  have h := Lemmas.C20K.Usq.refines_of_inv ops (init : St V) Lemmas.C20K.Usq.inv_init
+  rwa [Lemmas.C20K.Usq.abs_init] at h
+
+/-- C20.K2 (saved queries): in every reachable state the memory image of every tenant that was loaded
+equals its file image, so what a read sees (`view`) is exactly the file content … -/
+theorem mem_image_eq_file_image_usq (ops : List (Op V × Bool)) (t : Nat) :
+    view (run (init : St V) ops).1 t = (run (init : St V) ops).1.file t :=
+  Lemmas.C20K.Usq.view_eq_file (Lemmas.C20K.Usq.inv_run ops _ Lemmas.C20K.Usq.inv_init) t
+
+/-- … and therefore a restart at ANY position is the identity on what reads return. -/
+theorem reload_persist_id_usq (ops : List (Op V × Bool)) (b : Bool) :
+    abs (step (run (init : St V) ops).1 .restart b).1 = abs (run (init : St V) ops).1 :=
+  (Lemmas.C20K.Usq.step_ok (Lemmas.C20K.Usq.inv_run ops _ Lemmas.C20K.Usq.inv_init) .restart b).2.1
+
+/-- C20.K3 (saved queries): an operation of tenant `t` leaves what every other tenant reads unchanged,
+in every reachable state. -/
+theorem tenant_frame_usq (ops : List (Op V × Bool)) (op : Op V) (b : Bool) (t : Nat)
+    (ht : op.tenant = some t) (t' : Nat) (hne : t' ≠ t) (k : Key) :
+    abs (step (run (init : St V) ops).1 op b).1 t' k = abs (run (init : St V) ops).1 t' k := by
+  have h := (Lemmas.C20K.Usq.step_ok (Lemmas.C20K.Usq.inv_run ops _ Lemmas.C20K.Usq.inv_init) op b).2.1
+  rw [h]
+  cases op with
+  | put t0 k0 v =>
+    simp only [Op.tenant, Option.some.injEq] at ht; subst ht
+    simp only [specStep]; split
+    · rfl
+    · simp [Spec.put, Spec.set, hne]
+  | del t0 k0 =>
+    simp only [Op.tenant, Option.some.injEq] at ht; subst ht
+    simp only [specStep, Spec.delete]; split <;> simp [Spec.set, hne]
+  | search t0 q => rfl
+  | list t0 => rfl
+  | restart => rfl
+
+example : -- non-vacuous: two tenants, a restart in the middle, a clock race at every step
+    (run (init : St Nat) [(.put 1 [97] 5, false), (.put 0 [97, 98] 6, true), (.restart, true), (.search 0 [98], false),
+      (.del 1 [97], true), (.list 1, false), (.put 1 [] 7, false), (.del 0 [99], false)]).2 =
+    [.res .ok, .res .ok, .restarted, .entries [([97, 98], 6)], .res .ok, .entries [], .res .invalid, .res .notFound] := by
+  decide
+end Usq
+
+/-! ## index aliases (pkg/virtualtable) — the per-index alias files refine the specification at full
+strength; the in-memory inverse map `aliasToIndexNames` (list, resolve) does not -/
+section Alias
+open SigModel.KV.Alias
+
+/-- C20.K1 (aliases), the part that holds for EVERY operation sequence: `abs` (= the alias files)
+commutes with every step, and the answers of add / remove / get / restart are the documented ones. -/
+theorem kv_refines_spec_alias_files (ops : List Op) : RefinesFiles Spec.empty init ops := by
+  have h := Lemmas.C20K.Alias.refinesFiles_all ops init
+  rwa [Lemmas.C20K.Alias.abs_init] at h
+
+/-- C20.K1 (aliases) at full strength is REFUTED: after the only index of an alias is removed,
+`GetAllAliasesAsMapArray` still lists the alias (with no index) — `RemoveAliases` deletes the index
+from the alias' inner map but keeps the inner map (virtualtable.go:655). -/
+theorem kv_refines_spec_alias_counterexample_removal :
+    ¬ (∀ ops, Refines Spec.empty init ops) := by
+  intro h
+  have h1 := h [.add 1 [105] [97], .remove 1 [105] [97], .list 1]
+  simp only [Refines] at h1
+  obtain ⟨_, _, _, _, h2, _⟩ := h1
+  have h3 : (step (step (step init (.add 1 [105] [97])).1 (.remove 1 [105] [97])).1 (.list 1)).2 = .amap [([97], [])] := by decide
+  rw [h3] at h2
+  exact (h2.2.1 [97] [] (by simp)).1 rfl
+
+/-- … and REFUTED a second way: after a restart the aliases of org 0 no longer resolve —
+`initializeAliasToIndexMap` walks only the DIRECTORIES of the alias directory, and the alias files of
+org 0 lie at its top level (virtualtable.go:538-539). -/
+theorem kv_refines_spec_alias_counterexample_restart :
+    ¬ (∀ ops, Refines Spec.empty init ops) := by
+  intro h
+  have h1 := h [.add 0 [105] [97], .restart, .resolve 0 [97]]
+  simp only [Refines] at h1
+  obtain ⟨_, _, _, _, h2, _⟩ := h1
+  have h3 : (step (step (step init (.add 0 [105] [97])).1 .restart).1 (.resolve 0 [97])).2 = .target [] := by decide
+  rw [h3] at h2
+  have h4 := (h2 [105]).2 ⟨by simp, by
+    simp only [specStep, Spec.has]
+    decide⟩
+  cases h4
+
+/-- the guard: no removal takes the last index off an alias held by the memory map, and no restart
+happens while org 0 holds alias files (decidable: computed along the model run) -/
+abbrev AliasClean (ops : List Op) : Prop := Clean init ops = true
+
+/-- C20.K1 (aliases), partial: under the guard every answer — including list and resolve, which are
+read from the in-memory map — is the documented one, and `abs` commutes with every step. -/
+theorem kv_refines_spec_alias_partial (ops : List Op) (hc : AliasClean ops) : Refines Spec.empty init ops := by
+  have h := Lemmas.C20K.Alias.refines_of_memOk ops init Lemmas.C20K.Alias.memOk_init hc
+  rwa [Lemmas.C20K.Alias.abs_init] at h
+
+example : -- the guard is satisfiable by a sequence with removals and a restart (orgs 1 and 2, two indexes per alias)
+    AliasClean [.add 1 [105] [97], .add 1 [106] [97], .remove 1 [105] [97], .list 1, .restart, .resolve 1 [97],
+      .add 2 [105] [98], .get 2 [105], .remove 1 [107] [99]] := by decide
+
+/-- C20.K2 (aliases): a restart never changes the alias files (`abs`), in ANY state … -/
+theorem reload_persist_id_alias (st : St) : abs (step st .restart).1 = abs st := rfl
+
+/-- … but "restart is the identity on what reads return" is REFUTED for the memory view: the aliases
+of org 0 are gone from `aliasToIndexNames` after a restart. -/
+theorem reload_persist_id_alias_counterexample :
+    ¬ (∀ ops t a i, memView (step (run init ops).1 .restart).1 t a i ↔ memView (run init ops).1 t a i) := by
+  intro h
+  have h1 := (h [.add 0 [105] [97]] 0 [97] [105]).2 (by unfold memView; decide)
+  revert h1; unfold memView; decide
+
+/-- C20.K2 (aliases), partial: after a guarded sequence, a guarded restart (org 0 holds no alias file)
+is the identity on the memory view as well. -/
+theorem reload_persist_id_alias_partial (ops : List Op) (hc : AliasClean (ops ++ [.restart])) (t : Nat) (a i : Key) :
+    memView (step (run init ops).1 .restart).1 t a i ↔ memView (run init ops).1 t a i := by
+  have hsplit : ∀ (ops : List Op) (st : St), Clean st (ops ++ [.restart]) = true →
+      Clean st ops = true ∧ stepClean (run st ops).1 .restart = true := by
+    intro ops
+    induction ops with
+    | nil => intro st h; simpa [Clean, run] using h
+    | cons op r ih =>
+      intro st h
+      simp only [List.cons_append, Clean, Bool.and_eq_true] at h
+      obtain ⟨h1, h2⟩ := ih _ h.2
+      exact ⟨by simp [Clean, h.1, h1], by simpa [run] using h2⟩
+  obtain ⟨h1, h2⟩ := hsplit ops init hc
+  have hm := Lemmas.C20K.Alias.memOk_run ops init Lemmas.C20K.Alias.memOk_init h1
+  have hm2 := Lemmas.C20K.Alias.step_memOk hm .restart h2
+  exact (hm2.inverse t a i).trans (hm.inverse t a i).symm
+
+/-- C20.K3 (aliases): an operation of tenant `t` changes neither the alias files nor the memory view of
+any other tenant — in ANY state (the maps are keyed by org; nothing is shared). -/
+theorem tenant_frame_alias (st : St) (op : Op) (t : Nat) (ht : op.tenant = some t) (t' : Nat) (hne : t' ≠ t) :
+    (∀ i, abs (step st op).1 t' i = abs st t' i) ∧
+    (∀ a i, memView (step st op).1 t' a i ↔ memView st t' a i) :=
+  Lemmas.C20K.Alias.frame st op t ht t' hne
+
+example : -- non-vacuous run of the alias model: the two defects are visible in the answers
+    (run init [.add 0 [105] [97], .add 0 [106] [97], .resolve 0 [97], .remove 0 [105] [97], .remove 0 [106] [97],
+      .list 0, .add 0 [105] [98], .restart, .resolve 0 [98], .get 0 [105]]).2 =
+    [.res .ok, .res .ok, .target [[105], [106]], .res .ok, .res .ok, .amap [([97], [])], .res .ok, .restarted,
+      .target [], .names [[98]]] := by decide
+end Alias
+
+end SigModel.Props.C20.KV
